@@ -43,6 +43,12 @@ pub fn elem_text(kind: &str, name: &str) -> String {
         "TYPEDEF_MEASUREMENT" => format!("/begin TYPEDEF_MEASUREMENT {name} \"\" UBYTE NO_COMPU_METHOD 1 1 0 255 /end TYPEDEF_MEASUREMENT"),
         "TYPEDEF_STRUCTURE" => format!("/begin TYPEDEF_STRUCTURE {name} \"\" 4 /end TYPEDEF_STRUCTURE"),
         "UNIT" => format!("/begin UNIT {name} \"\" \"u\" DERIVED /end UNIT"),
+        // module children that are not ItemLists (projected out of the placement observations)
+        "MOD_COMMON" => "/begin MOD_COMMON \"\" BYTE_ORDER MSB_LAST /end MOD_COMMON".to_string(),
+        "MOD_PAR" => "/begin MOD_PAR \"\" /end MOD_PAR".to_string(),
+        "IF_DATA" => format!("/begin IF_DATA {name} 1 2 /end IF_DATA"),
+        "USER_RIGHTS" => format!("/begin USER_RIGHTS {name} /end USER_RIGHTS"),
+        "VARIANT_CODING" => "/begin VARIANT_CODING /end VARIANT_CODING".to_string(),
         other => panic!("elem_text: unknown kind {other}"),
     }
 }
